@@ -2,6 +2,7 @@ import Op2Model.Determ
 import Op2Model.Gen.Layout
 import Op2Proofs.Props.C01
 import Op2Proofs.Props.C03
+import Op2Proofs.PathSpelling
 /-!
 # C18 — serialised bytes and parsed values depend only on the logical input
 
@@ -10,7 +11,9 @@ Three ingredients: (1) no byte of any record the library builds and serialises c
 is exactly what is needed); (2) archives do not depend on the order the inputs are listed in (C01_perm,
 C03_order_independent); (3) every serialiser / parser model in this development is a function of the logical input
 alone (no garbage parameter reaches them), tied to the code by running every scenario in processes with different
-heap and stack garbage.
+heap and stack garbage; (4) archives do not depend on how the input paths are spelled (`C18_vol_spelling`,
+`C18_clm_spelling`): the writers look at an input path only through `XFile::GetFilename`, with the single exception of the
+`PathsAreEqual(output, input)` refusal of the VOL writer, which is the stated side condition.
 -/
 namespace Op2.Props.C18
 open Op2 Op2.Determ
@@ -72,6 +75,166 @@ theorem C18_vol_order_independent (out : Bytes) (files files' : List Vol.InFile)
 theorem C18_clm_order_independent (files files' : List (Bytes × Content)) (hperm : files.Perm files')
     (hdistinct : Str.NoDupCI (fun f : Bytes × Content => Path.getFilename f.1) files) : Clm.create files = Clm.create files' :=
   Op2.Props.C03.C03_order_independent files files' hperm hdistinct
+
+
+/-! ## path spelling -/
+
+/-- two spellings of one logical VOL input: same final path component (`XFile::GetFilename`), same content -/
+def SameVolInput (f g : Vol.InFile) : Prop := Path.getFilename f.path = Path.getFilename g.path ∧ f.content = g.content
+
+/-- two spellings of one logical CLM input -/
+def SameClmInput (f g : Bytes × Content) : Prop := Path.getFilename f.1 = Path.getFilename g.1 ∧ f.2 = g.2
+
+/-- the spellings the property speaks of: a plain name `n` (non-empty, no '/'), given bare or behind any directory part
+    `dir/` with `dir ≠ "/"` — `a/x.txt`, `./x.txt`, `./d/e/x.txt`, `/abs//x.txt` … — has the same file name -/
+theorem getFilename_spelled (dir n : Bytes) (hn : Path.Plain n) (hd : dir ≠ [Path.sep]) :
+    Path.getFilename (dir ++ [Path.sep] ++ n) = Path.getFilename n := by
+  rw [List.append_assoc, List.singleton_append]
+  exact Path.getFilename_dir dir n hn hd
+
+theorem sameVolInput_spelled (dir n : Bytes) (c : Vol.Content) (hn : Path.Plain n) (hd : dir ≠ [Path.sep]) :
+    SameVolInput ⟨n, c⟩ ⟨dir ++ [Path.sep] ++ n, c⟩ := ⟨(getFilename_spelled dir n hn hd).symm, rfl⟩
+
+theorem sameClmInput_spelled (dir n : Bytes) (c : Content) (hn : Path.Plain n) (hd : dir ≠ [Path.sep]) :
+    SameClmInput (n, c) (dir ++ [Path.sep] ++ n, c) := ⟨(getFilename_spelled dir n hn hd).symm, rfl⟩
+
+/-- equal length, and entry by entry two spellings of the same logical input -/
+def SpelledAs {α : Type} (same : α → α → Prop) (files files' : List α) : Prop :=
+  files.length = files'.length ∧ ∀ (i : Nat) (h : i < files.length) (h' : i < files'.length), same files[i] files'[i]
+
+theorem vol_logical_eq {files files' : List Vol.InFile} (h : SpelledAs SameVolInput files files') :
+    files.map Vol.logical = files'.map Vol.logical := by
+  apply List.ext_getElem
+  · rw [List.length_map, List.length_map, h.1]
+  · intro i h1 h2
+    rw [List.length_map] at h1 h2
+    rw [List.getElem_map, List.getElem_map]
+    unfold Vol.logical
+    rw [(h.2 i h1 h2).1, (h.2 i h1 h2).2]
+
+theorem clm_logical_eq {files files' : List (Bytes × Content)} (h : SpelledAs SameClmInput files files') :
+    files.map Clm.logical = files'.map Clm.logical := by
+  apply List.ext_getElem
+  · rw [List.length_map, List.length_map, h.1]
+  · intro i h1 h2
+    rw [List.length_map] at h1 h2
+    rw [List.getElem_map, List.getElem_map]
+    unfold Clm.logical
+    rw [(h.2 i h1 h2).1, (h.2 i h1 h2).2]
+
+/-- the VOL writer looks at its inputs only through `(GetFilename(path), content)`, except for the test whether the
+    output path names one of the inputs: with the same outcome of that test, two lists of inputs that agree entry by
+    entry in file name and content give the same archive bytes, or the same refusal (duplicate names, sizes, name-table
+    and offset overflows, empty output path: all covered) -/
+theorem C18_vol_spelling_gate (out : Bytes) (files files' : List Vol.InFile)
+    (hsame : SpelledAs SameVolInput files files')
+    (hgate : files.any (fun f => Path.pathsAreEqual out f.path) = files'.any (fun f => Path.pathsAreEqual out f.path)) :
+    Vol.create out files = Vol.create out files' := by
+  rw [Vol.create_factors out files, Vol.create_factors out files', vol_logical_eq hsame]
+  unfold Vol.outClash
+  rw [hgate]
+
+/-- **the VOL archive does not depend on how the input paths are spelled**: two lists of equal length whose i-th entries
+    have the same `GetFilename` and the same content give the same archive bytes — or the same refusal — provided the
+    output path is not `PathsAreEqual` to an input path in either spelling (that refusal does depend on the spelling) -/
+theorem C18_vol_spelling (out : Bytes) (files files' : List Vol.InFile)
+    (hsame : SpelledAs SameVolInput files files')
+    (hout : files.any (fun f => Path.pathsAreEqual out f.path) = false)
+    (hout' : files'.any (fun f => Path.pathsAreEqual out f.path) = false) :
+    Vol.create out files = Vol.create out files' :=
+  C18_vol_spelling_gate out files files' hsame (hout.trans hout'.symm)
+
+/-- without any side condition: whenever both spellings are accepted, the bytes are the same; and when one spelling is
+    accepted and the other is not, the refused one has an input that is `PathsAreEqual` to the output path -/
+theorem C18_vol_spelling_any (out : Bytes) (files files' : List Vol.InFile)
+    (hsame : SpelledAs SameVolInput files files') :
+    (∀ b b', Vol.create out files = .ok b → Vol.create out files' = .ok b' → b = b') ∧
+    (∀ b e, Vol.create out files = .ok b → Vol.create out files' = .error e →
+      e = .refused ∧ files'.any (fun f => Path.pathsAreEqual out f.path) = true) := by
+  rw [Vol.create_factors out files, Vol.create_factors out files', vol_logical_eq hsame]
+  unfold Vol.outClash
+  cases Vol.createCore (files'.map Vol.logical) with
+  | error e => exact ⟨fun _ _ h => (nomatch h), fun _ _ h => (nomatch h)⟩
+  | ok c =>
+    simp only []
+    by_cases h1 : files.any (fun f => Path.pathsAreEqual out f.path) = true
+    · rw [if_pos h1]; exact ⟨fun _ _ h => (nomatch h), fun _ _ h => (nomatch h)⟩
+    · rw [if_neg h1]
+      by_cases h0 : out.isEmpty = true
+      · rw [if_pos h0]; exact ⟨fun _ _ h => (nomatch h), fun _ _ h => (nomatch h)⟩
+      · rw [if_neg h0]
+        by_cases h2 : files'.any (fun f => Path.pathsAreEqual out f.path) = true
+        · rw [if_pos h2]
+          refine ⟨fun _ _ _ h => (nomatch h), fun _ e _ h => ?_⟩
+          cases h; exact ⟨rfl, h2⟩
+        · rw [if_neg h2]
+          refine ⟨fun b b' h h' => ?_, fun _ _ _ h => nomatch h⟩
+          cases h; cases h'; rfl
+
+/-! ### non-vacuity: three files, given bare and as `d/a.txt`, `./B.bin`, `./d/e//c` -/
+
+def exBare : List Vol.InFile :=
+  [⟨[97, 46, 116, 120, 116], .bytes [1, 2, 3]⟩, ⟨[66, 46, 98, 105, 110], .bytes []⟩, ⟨[99], .zeros 5⟩]
+def exSpelled : List Vol.InFile :=
+  [⟨[100, 47, 97, 46, 116, 120, 116], .bytes [1, 2, 3]⟩, ⟨[46, 47, 66, 46, 98, 105, 110], .bytes []⟩, ⟨[46, 47, 100, 47, 101, 47, 47, 99], .zeros 5⟩]
+/-- `o.vol` -/
+def exOut : Bytes := [111, 46, 118, 111, 108]
+
+/-- the hypotheses of `C18_vol_spelling` hold for this pair … -/
+example : SpelledAs SameVolInput exBare exSpelled ∧
+    exBare.any (fun f => Path.pathsAreEqual exOut f.path) = false ∧
+    exSpelled.any (fun f => Path.pathsAreEqual exOut f.path) = false := by
+  refine ⟨⟨rfl, fun i h h' => ?_⟩, by decide, by decide⟩
+  match i, h, h' with
+  | 0, _, _ => exact sameVolInput_spelled [100] [97, 46, 116, 120, 116] _ (by decide) (by decide)
+  | 1, _, _ => exact sameVolInput_spelled [46] [66, 46, 98, 105, 110] _ (by decide) (by decide)
+  | 2, _, _ => exact sameVolInput_spelled [46, 47, 100, 47, 101, 47] [99] _ (by decide) (by decide)
+set_option maxRecDepth 8192 in
+/-- … the archive is written, and is the same for both spellings (evaluated, not deduced) -/
+example : (Vol.create exOut exBare).toOption = (Vol.create exOut exSpelled).toOption ∧
+    ((Vol.create exOut exBare).toOption.map List.length) = some 132 := by decide
+/-- a refusal that does not concern the output path is the same too: `a.txt` twice, once as `d/A.TXT` -/
+example : (Vol.create exOut (⟨[65, 46, 84, 88, 84], .bytes []⟩ :: exBare)).toOption = none ∧
+    (Vol.create exOut (⟨[100, 47, 65, 46, 84, 88, 84], .bytes []⟩ :: exSpelled)).toOption = none := by decide
+/-- **the side condition is needed**: with the output path `d/a.txt` the bare spelling is packed and the spelling that
+    contains `d/a.txt` is refused -/
+example : (Vol.create [100, 47, 97, 46, 116, 120, 116] exBare).toOption.isSome = true ∧
+    (Vol.create [100, 47, 97, 46, 116, 120, 116] exSpelled).toOption = none ∧
+    exBare.any (fun f => Path.pathsAreEqual [100, 47, 97, 46, 116, 120, 116] f.path) = false ∧
+    exSpelled.any (fun f => Path.pathsAreEqual [100, 47, 97, 46, 116, 120, 116] f.path) = true := by decide
+/-- … and so does the bare output path `a.txt` against the spelling `./a.txt` (`PathsAreEqual` drops a leading `./`)
+    but not against `d/a.txt` -/
+example : (Vol.create [97, 46, 116, 120, 116] [⟨[46, 47, 97, 46, 116, 120, 116], .bytes [7]⟩]).toOption = none ∧
+    (Vol.create [97, 46, 116, 120, 116] [⟨[100, 47, 97, 46, 116, 120, 116], .bytes [7]⟩]).toOption.isSome = true := by decide
+
+/-- **the CLM archive does not depend on how the input paths are spelled** — unconditionally (the CLM writer is not
+    given the output path): same `GetFilename` and same content entry by entry give the same archive, or the same
+    failure -/
+theorem C18_clm_spelling (files files' : List (Bytes × Content))
+    (hsame : SpelledAs SameClmInput files files') : Clm.create files = Clm.create files' := by
+  rw [Clm.create_factors files, Clm.create_factors files', clm_logical_eq hsame]
+
+/-! ### non-vacuity: three tracks, given bare and as `w/trk1.wav`, `./Eden.WAV`, `./w/b.wav` -/
+
+def exClmBare : List (Bytes × Content) :=
+  [([116, 114, 107, 49, 46, 119, 97, 118], ⟨C03.exWav.enc, 0⟩), ([69, 100, 101, 110, 46, 87, 65, 86], ⟨C03.exWav.enc, 0⟩), ([98, 46, 119, 97, 118], ⟨C03.exWav.enc, 0⟩)]
+def exClmSpelled : List (Bytes × Content) :=
+  [([119, 47, 116, 114, 107, 49, 46, 119, 97, 118], ⟨C03.exWav.enc, 0⟩), ([46, 47, 69, 100, 101, 110, 46, 87, 65, 86], ⟨C03.exWav.enc, 0⟩), ([46, 47, 119, 47, 98, 46, 119, 97, 118], ⟨C03.exWav.enc, 0⟩)]
+
+/-- the hypothesis of `C18_clm_spelling` holds for this pair … -/
+example : SpelledAs SameClmInput exClmBare exClmSpelled := by
+  refine ⟨rfl, fun i h h' => ?_⟩
+  match i, h, h' with
+  | 0, _, _ => exact sameClmInput_spelled [119] [116, 114, 107, 49, 46, 119, 97, 118] _ (by decide) (by decide)
+  | 1, _, _ => exact sameClmInput_spelled [46] [69, 100, 101, 110, 46, 87, 65, 86] _ (by decide) (by decide)
+  | 2, _, _ => exact sameClmInput_spelled [46, 47, 119] [98, 46, 119, 97, 118] _ (by decide) (by decide)
+set_option maxRecDepth 8192 in
+/-- … the archive is written, and is the same for both spellings (evaluated, not deduced) -/
+example : C03.bytesOf? (Clm.create exClmBare) = C03.bytesOf? (Clm.create exClmSpelled) ∧
+    (C03.bytesOf? (Clm.create exClmBare)).map List.length = some (60 + 3 * 16 + 3 * 4) := by decide
+/-- and a failure is the same too: `b.wav` and `w/B.WAV` -/
+example : C03.bytesOf? (Clm.create (([66, 46, 87, 65, 86], ⟨C03.exWav.enc, 0⟩) :: exClmBare)) = none ∧
+    C03.bytesOf? (Clm.create (([119, 47, 66, 46, 87, 65, 86], ⟨C03.exWav.enc, 0⟩) :: exClmSpelled)) = none := by decide
 
 /-- non-vacuity of the converse: a record with one unassigned byte does depend on the garbage -/
 example : ∃ g g' : Nat → UInt8, image g [1, 2, 3] [1] ≠ image g' [1, 2, 3] [1] :=
